@@ -91,6 +91,19 @@ def numpy_to_blackbird(A, var_name):
             var_type = "float"
 
         script = ["{} array {}[{}, {}] =".format(var_type, var_name, *A.shape)]
+
+        # an array that consists of the elements base_i_j of one array-valued parameter is
+        # written in its original form; element by element, a 1x1 array would be read
+        # back as a new array-valued parameter named base_0_0
+        base = str(A[0][0])[:-4] if str(A[0][0]).endswith("_0_0") else None
+        if base and all(
+            isinstance(A[i][j], sym.Symbol) and str(A[i][j]) == "{}_{}_{}".format(base, i, j)
+            for i, j in np.ndindex(A.shape)
+        ):
+            script.append("    {" + base + "}")
+            script.append("")
+            return script
+
         for row in A:
             items = []
             for n in row:
